@@ -63,6 +63,85 @@ theorem merge_first_error {α} (maxc : Nat) (pre post : List (Ev (HV α))) (k : 
   ⟨first_error_terminates maM (fun _ _ _ => rfl) _ (hoInit_WF _) pre post k e,
    first_error_terminates (mcM maxc) (fun _ _ _ => rfl) _ (hoInit_WF _) pre post k e⟩
 
+/-- **merge_completes_iff** (merge_all, flat_map, rx.merge). Walk the delivered notifications remembering which arrived inners
+have not completed yet (an arrival appends the inner, an inner completion erases it) and whether the outer completed
+(`maTStep`). The output completes if and only if at the end of the delivered notifications the outer has completed and no
+arrived inner is left uncompleted (`maRule`) — in the very step that makes this true. -/
+theorem merge_completes_iff {α} (es : List (Ev (HV α))) :
+    Notif.completed ∈ emits (run (maM (α := α)) (hoInit {}) es)
+      ↔ maRule ((accepted (maM (α := α)) (hoInit {}) es).foldl maTStep {}) := by
+  have h := rule_run (maM (α := α)) (fun st => st.p.WF) maAbs maTStep maRule
+    (fun st e h => step_WF _ st e h) (fun _ h => h) (fun st e _ => ma_abs_step st e)
+    (fun st k n _ _ hr => ma_rule_step st.s k n hr)
+    (fun st _ => by simp [step, maM, Plumb.acts])
+    es (hoInit {}) (hoInit_WF _) (by simp [maRule, maAbs, hoInit])
+  simpa [maAbs, hoInit] using h
+
+/-- **merge_completes_maxc_partial** (merge(max_concurrent), concat_map). If the output completes then, in the final state,
+the outer has completed (`is_stopped`), `active_count` is 0, no inner subscription is live and (max_concurrent ≥ 1) the
+queue is empty: every arrived inner was started and has been closed.  PARTIAL: only this direction, and stated on the
+operator's counters rather than on the delivered notifications (the full `iff` is proved for merge_all above). -/
+theorem merge_completes_maxc_partial {α} (maxc : Nat) (hm : 1 ≤ maxc) (es : List (Ev (HV α)))
+    (hc : Notif.completed ∈ emits (run (mcM (α := α) maxc) (hoInit {}) es)) :
+    let st := final (mcM (α := α) maxc) (hoInit {}) es
+    st.s.stopped = true ∧ st.s.active = 0 ∧ st.p.live.filter (· != 0) = [] ∧ st.s.queue = [] := by
+  intro st
+  have habs : ∀ (st : St McSt) (e : Ev (HV α)), McInv maxc st →
+      (step (mcM (α := α) maxc) st e).1.s
+        = (accOne st e).foldl (fun s kn => ((mcM (α := α) maxc).handler s kn.1 kn.2).1) st.s := by
+    intro st e _
+    cases e with
+    | tick => simp [step, mcM, accOne]
+    | dispose => simp [step, accOne]
+    | src k n =>
+      by_cases hk : k ∈ st.p.live
+      · simp [step_src_state _ _ _ _ hk, accOne, hk]
+      · simp [step_src_not_live _ _ _ _ hk, accOne, hk]
+  have hrule := rule_run (mcM (α := α) maxc) (McInv maxc) id
+    (fun s kn => ((mcM (α := α) maxc).handler s kn.1 kn.2).1) mcRule
+    (fun st e h => mc_step_inv maxc st e h) (fun _ h => h.wf) habs
+    (fun st k n _ _ hr => mc_rule_step maxc st.s k n hr)
+    (fun st _ => by simp [step, mcM, Plumb.acts])
+    es (hoInit {}) (mc_init_inv maxc) (by simp [mcRule, hoInit])
+  have hfin := final_abs (mcM (α := α) maxc) (McInv maxc) id
+    (fun s kn => ((mcM (α := α) maxc).handler s kn.1 kn.2).1)
+    (fun st e h => mc_step_inv maxc st e h) habs es (hoInit {}) (mc_init_inv maxc)
+  have hr : mcRule st.s := by
+    have := hrule.mp hc
+    simp only [id] at this hfin
+    rw [← hfin.1] at this; exact this
+  have hinv : McInv maxc st := hfin.2
+  refine ⟨hr.1, hr.2, ?_, ?_⟩
+  · have := hinv.le
+    rw [hr.2] at this
+    exact List.length_eq_zero_iff.mp (Nat.le_zero.mp this)
+  · cases hq : st.s.queue with
+    | nil => rfl
+    | cons a as =>
+      have := hinv.qfull (by simp [hq])
+      rw [hr.2] at this; omega
+
+/-- **concat_map_ordered** (max_concurrent = 1). In every reachable state the only inner subscription that can be live is the
+MOST RECENTLY SUBSCRIBED one: an inner is subscribed only when every earlier inner has been closed. Together with
+`merge_queue_fifo` (inners are subscribed in arrival order) and `merge_per_inner_order_maxc` (the output is the
+sequence of delivered inner elements) this is the ordered concatenation: the output consists of the elements of the
+first arrived inner, then those of the second, … — no interleaving. -/
+theorem concat_map_ordered {α} (es : List (Ev (HV α))) (k : Nat)
+    (hk : k ∈ (final (mcM (α := α) 1) (hoInit {}) es).p.live) (hk0 : k ≠ 0) :
+    (subsOf (run (mcM (α := α) 1) (hoInit {}) es)).getLast? = some k ∧
+    (final (mcM (α := α) 1) (hoInit {}) es).p.live.filter (· != 0) = [k] := by
+  have h := o_run (α := α) es [] (hoInit {}) ⟨mc_init_inv 1, by intro j hj hj0; simp [hoInit] at hj; exact absurd hj hj0⟩
+  simp only [List.nil_append] at h
+  refine ⟨h.last k hk hk0, ?_⟩
+  have hle : ((final (mcM (α := α) 1) (hoInit {}) es).p.live.filter (· != 0)).length ≤ 1 :=
+    Nat.le_trans h.inv.le h.inv.amax
+  have hmem : k ∈ (final (mcM (α := α) 1) (hoInit {}) es).p.live.filter (· != 0) :=
+    List.mem_filter.mpr ⟨hk, by simpa using hk0⟩
+  generalize (final (mcM (α := α) 1) (hoInit {}) es).p.live.filter (· != 0) = l at hle hmem
+  match l, hle, hmem with
+  | [a], _, hmem => simp at hmem; rw [hmem]
+  | a :: b :: r, hle, _ => simp at hle
+
 /-- non-vacuity: max_concurrent = 1, three inners; the second and third wait, start in arrival order; an inner error ends it -/
 example :
     run (mcM (α := Nat) 1) (hoInit {})
